@@ -16,7 +16,15 @@ def main():
     ap.add_argument('--workers', type=int)
     a = ap.parse_args()
     seed = int(os.environ.get('VERIF_SEED', '0'))
-    rc = core.run_check(a.property, a.tier, seed, n_runs=a.runs, budget_s=a.seconds, workers=a.workers)
+    try:
+        rc = core.run_check(a.property, a.tier, seed, n_runs=a.runs, budget_s=a.seconds, workers=a.workers)
+    except SystemExit:
+        raise
+    except BaseException:
+        # a bug in the harness (or emsarray not importable) is never a pass and never a VIOLATION
+        import traceback
+        print('HARNESS-ERROR', traceback.format_exc()[-3000:])
+        sys.exit(2)
     sys.exit(rc)
 
 
